@@ -44,24 +44,25 @@ theorem historic_view_stable (O : TrieOps T) (hre : ∀ t, O.reopen (O.rootOf t)
   · rw [hc, List.take_append_of_le_length (by omega)]
 
 /-- the C10 MPT as the trie side. -/
-def mptOps (rootOf : Mpt.Node → Bytes) (reopen : Bytes → Mpt.Node) : TrieOps Mpt.Node :=
-  { M := mptMap, rootOf := rootOf, reopen := reopen }
+def mptOps (rootOf : Mpt.Node → Bytes) (reopen : Bytes → Mpt.Node)
+    (hz : rootOf Mpt.Node.empty = List.replicate 32 0) : TrieOps Mpt.Node :=
+  { M := mptMap, rootOf := rootOf, reopen := reopen, rootOf_empty := hz }
 
 /-- … and so does every System.Storage.Find of a historic invocation against that root: whenever it
 is evaluated — before or after later blocks were stored, whatever they changed — and whatever the
 invocation itself wrote (`layers`), the outcome is the one over the trie of the first `h+1` change
 sets, i.e. (by `historic_find_eq_live`) what the live node answered at height `h`. -/
-theorem historic_find_stable (rootOf : Mpt.Node → Bytes) (reopen : Bytes → Mpt.Node)
+theorem historic_find_stable (rootOf : Mpt.Node → Bytes) (reopen : Bytes → Mpt.Node) (hz : rootOf Mpt.Node.empty = List.replicate 32 0)
     (hre : ∀ t, reopen (rootOf t) = t) (h32 : ∀ t, (rootOf t).length = 32) (ops : List Op)
     (more : List (List Change)) (s s' : St Mpt.Node)
-    (hrun : run (mptOps rootOf reopen) (genesis (mptOps rootOf reopen)) ops = some s)
-    (hrun' : run (mptOps rootOf reopen) s (more.map Op.block) = some s') (h : Nat) (hh : h < s.chain.length) :
+    (hrun : run (mptOps rootOf reopen hz) (genesis (mptOps rootOf reopen hz)) ops = some s)
+    (hrun' : run (mptOps rootOf reopen hz) s (more.map Op.block) = some s') (h : Nat) (hh : h < s.chain.length) :
     ∃ r, getStateRoot s'.m h = some r ∧
       ∀ layers sp id pfx opts,
         Find.findHistoric (reopen r.root) layers sp id pfx opts =
           Find.findHistoric (trieAt mptMap (s.chain.take (h + 1))) layers sp id pfx opts := by
-  obtain ⟨r, hr, _, hroot⟩ := (roots_per_height (mptOps rootOf reopen) hre h32 ops s hrun).1 h hh
-  obtain ⟨_, hst⟩ := run_blocks (mptOps rootOf reopen) more s s' hrun'
+  obtain ⟨r, hr, _, hroot⟩ := (roots_per_height (mptOps rootOf reopen hz) hre h32 ops s hrun).1 h hh
+  obtain ⟨_, hst⟩ := run_blocks (mptOps rootOf reopen hz) more s s' hrun'
   refine ⟨r, ?_, ?_⟩
   · unfold getStateRoot at hr ⊢
     rw [hst h hh]; exact hr
@@ -69,6 +70,26 @@ theorem historic_find_stable (rootOf : Mpt.Node → Bytes) (reopen : Bytes → M
     rw [hroot]
     show Find.findHistoric (reopen (rootOf _)) _ _ _ _ _ = _
     rw [hre]; rfl
+
+theorem rootHash_length (H : Bytes → Bytes) (h32 : ∀ b, (H b).length = 32) (t : Mpt.Node) :
+    (Mpt.rootHash H t).length = 32 := by
+  unfold Mpt.rootHash
+  split
+  · simp [Mpt.zero32]
+  · exact h32 _
+
+/-- the same with the real root hash function `rootHash H` (state root = hash of the root node, zero for the
+empty trie): the hypotheses "root hashes have 32 bytes" and "the empty trie has the zero root" are facts of
+the model, only `H`'s output length and the re-opening of tries by hash remain. -/
+theorem historic_find_stable_mpt (H : Bytes → Bytes) (hH : ∀ b, (H b).length = 32) (reopen : Bytes → Mpt.Node)
+    (hre : ∀ t, reopen (Mpt.rootHash H t) = t) (ops : List Op) (more : List (List Change)) (s s' : St Mpt.Node)
+    (hrun : run (mptOps (Mpt.rootHash H) reopen rfl) (genesis (mptOps (Mpt.rootHash H) reopen rfl)) ops = some s)
+    (hrun' : run (mptOps (Mpt.rootHash H) reopen rfl) s (more.map Op.block) = some s') (h : Nat) (hh : h < s.chain.length) :
+    ∃ r, getStateRoot s'.m h = some r ∧
+      ∀ layers sp id pfx opts,
+        Find.findHistoric (reopen r.root) layers sp id pfx opts =
+          Find.findHistoric (trieAt mptMap (s.chain.take (h + 1))) layers sp id pfx opts :=
+  historic_find_stable (Mpt.rootHash H) reopen rfl hre (rootHash_length H hH) ops more s s' hrun hrun' h hh
 
 -- non-vacuity (the one-key toy trie): after the example history (which ends at height 2 with 05),
 -- two more blocks delete and rewrite the key; the record of height 1 and what it commits to (02) stay
